@@ -165,6 +165,25 @@ impl Opts {
     pub fn get(&self, k: &str) -> Option<&str> {
         self.extra.get(k).map(|s| s.as_str())
     }
+    /// Soft wall-clock budget of the main pass in seconds. A run that hits it
+    /// stops generating further cases and reports what it covered; which
+    /// cases are executed stays a pure function of the seed (always a prefix
+    /// of the same sequence), only their number depends on the machine.
+    pub fn budget_s(&self) -> u64 {
+        std::env::var("VERIF_BUDGET_S").ok().and_then(|s| s.parse().ok()).unwrap_or(if self.thorough() { 1200 } else { 50 })
+    }
+}
+
+#[derive(Clone, Copy)]
+pub struct Deadline(std::time::Instant, u64);
+
+impl Deadline {
+    pub fn new(seconds: u64) -> Deadline {
+        Deadline(std::time::Instant::now(), seconds)
+    }
+    pub fn passed(&self) -> bool {
+        self.0.elapsed().as_secs() >= self.1
+    }
 }
 
 pub fn harness_error(msg: &str) -> ! {
